@@ -442,6 +442,11 @@ func (h *History) statusCertain(from, to int) string {
 			inProgress = true
 		case EvStatus:
 			inProgress = false
+			if strings.Contains(e.Info, " write-failed") {
+				// a failed write: whether the old or the new status is visible is not certain
+				cur = ""
+				break
+			}
 			cur = e.Info
 			if j := strings.IndexByte(cur, ' '); j >= 0 {
 				cur = cur[:j]
@@ -544,6 +549,10 @@ func (h *History) CheckC11Control(res *Result) []Violation {
 				}
 			}
 		case "wait":
+			if st == "Degraded" && c.Err == "" && h.ranBefore(c.CallIdx) {
+				out = append(out, Violation{Prop: "C11", Key: "C11/wait-nil-for-failed-run/" + eng, Index: c.RetIdx,
+					Detail: "WaitPipeline returned nil although the pipeline's last run ended with an error (status Degraded during the whole call)"})
+			}
 			if st == "Running" {
 				liveBefore := openAt(c.CallIdx)
 				liveAfter := openAt(c.RetIdx + 1)
@@ -558,13 +567,26 @@ func (h *History) CheckC11Control(res *Result) []Violation {
 		case "start":
 			if c.Err != "" && (strings.Contains(c.Err, "connector is running") || strings.Contains(c.Err, "processor already running") || strings.Contains(c.Err, "processor is running")) {
 				if isTerminalName(st) {
-					out = append(out, Violation{Prop: "C11", Key: "C11/cannot-restart-after-run-ended/" + eng, Index: c.RetIdx,
+					out = append(out, Violation{Prop: "C11", Key: "C11/cannot-restart-after-run-ended/" + eng + "/" + shape, Index: c.RetIdx,
 						Detail: fmt.Sprintf("Start failed with %q although the previous run had ended (%s)", truncate(c.Err, 160), st)})
 				}
 			}
 		}
 	}
 	return out
+}
+
+// ranBefore reports whether a run went live (a successful Running status write) before idx.
+func (h *History) ranBefore(idx int) bool {
+	for i, e := range h.Events {
+		if i >= idx {
+			break
+		}
+		if e.Kind == EvStatus && e.OK && strings.HasPrefix(e.Info, "Running") {
+			return true
+		}
+	}
+	return false
 }
 
 func isTerminalName(s string) bool {
